@@ -48,6 +48,7 @@ type funcContract struct {
 	assumeFrame   bool       // assigns clause assumed, not checked (function values of unknown purity are called)
 	splitReturns  bool     // one postcondition obligation per return statement instead of one over the merged exit state
 	opaqueArith   bool      // integer arithmetic results as declared constants with defining equations (helps quantifier triggers)
+	noParamRules  bool      // the package's paramrule preconditions do not apply (the function does not use those parameters)
 	preciseAppend bool       // generate quantified content facts for append (needed only by functional contracts on slices)
 	decrGroup     string     // recursion group of the measure: only calls within one group are compared
 	fdecr         []*clause  // function-level termination measure (lexicographic), checked at every call in the recursion group
@@ -169,6 +170,16 @@ type contracts struct {
 	nonnil       map[string]bool   // "field pkg.T.f" | "elems pkg.T" | "payload pkg.T"
 	fieldRange   map[string][2]string
 	mapInv       map[string]string // map type string -> predicate name over the stored value
+	fieldPred    map[string]string // "pkg.T.f" -> predicate name over the field's value
+	paramRules   []paramRule
+}
+
+// paramRule: a precondition shared by every function (of the declaring package) that has parameters of the given names
+type paramRule struct {
+	params  []string
+	cl      *clause
+	pkg     string
+	ensures bool
 }
 
 func (c *contracts) get(key string) *funcContract { return c.funcs[key] }
@@ -176,7 +187,7 @@ func (c *contracts) get(key string) *funcContract { return c.funcs[key] }
 var clauseKeywords = map[string]bool{"func": true, "pred": true, "spec": true, "requires": true, "ensures": true, "assigns": true,
 	"loop": true, "panics": true, "inline": true, "trusted": true, "noreturn": true, "props": true, "pure": true,
 	"field": true, "evaltype": true, "frameroot": true, "freshresult": true, "globalroot": true,
-	"implements": true, "recovers": true, "decreases": true, "funcfield": true, "precise-append": true, "nonnil": true, "preserves": true, "atcall": true, "atstore": true, "opaque-arith": true, "split-returns": true, "atif": true, "owned": true, "mapinv": true, "abstract-float": true, "fieldrange": true}
+	"implements": true, "recovers": true, "decreases": true, "funcfield": true, "precise-append": true, "nonnil": true, "preserves": true, "atcall": true, "atstore": true, "opaque-arith": true, "split-returns": true, "atif": true, "owned": true, "mapinv": true, "abstract-float": true, "fieldrange": true, "fieldpred": true, "paramrule": true, "noparamrule": true}
 
 func loadContractFile(c *contracts, path string, pkgpath string) error {
 	data, err := os.ReadFile(path)
@@ -336,6 +347,8 @@ func loadContractFile(c *contracts, path string, pkgpath string) error {
 			cur.abstractFloat = true
 		case "opaque-arith":
 			cur.opaqueArith = true
+		case "noparamrule":
+			cur.noParamRules = true
 		case "split-returns":
 			cur.splitReturns = true
 		case "owned":
@@ -491,6 +504,32 @@ func loadContractFile(c *contracts, path string, pkgpath string) error {
 				c.fieldRange = map[string][2]string{}
 			}
 			c.fieldRange[f[0]] = [2]string{f[1], f[2]}
+			cur = nil
+		case "paramrule": // paramrule p1 p2 ... requires e : every function under contract with parameters named p1, p2, ... requires e
+			kind := "requires"
+			k := strings.Index(rest, " requires ")
+			if k < 0 {
+				kind = "ensures"
+				k = strings.Index(rest, " ensures ")
+			}
+			if k < 0 {
+				return fmt.Errorf("%s:%d: bad paramrule directive", path, r.line)
+			}
+			cl, err := mk(kind, -1, strings.TrimSpace(rest[k+len(" "+kind+" "):]))
+			if err != nil {
+				return err
+			}
+			c.paramRules = append(c.paramRules, paramRule{params: strings.Fields(rest[:k]), cl: cl, pkg: pkgpath, ensures: kind == "ensures"})
+			cur = nil
+		case "fieldpred": // fieldpred pkg.T.f pred : data-structure invariant pred(x.f) (a one-parameter predicate that holds for the zero value; assumed at loads, checked at stores)
+			f := strings.Fields(rest)
+			if len(f) != 2 {
+				return fmt.Errorf("%s:%d: bad fieldpred directive", path, r.line)
+			}
+			if c.fieldPred == nil {
+				c.fieldPred = map[string]string{}
+			}
+			c.fieldPred[f[0]] = f[1]
 			cur = nil
 		case "nonnil": // data-structure invariants:  nonnil field T.f ... | nonnil elems T ... | nonnil payload T ...
 			f := strings.Fields(rest)
